@@ -79,7 +79,13 @@ def build_and_verify(crate, filters, jobs=None, harness_timeout=600, wall_timeou
             undet = [c for c in bad if c.get("status") != "Failure"]
             unwind = [c for c in fails if c.get("category") in ("unwind",) or "unwinding assertion" in c.get("description", "")]
             unsupported = [c for c in fails if c.get("category") in ("unsupported_construct",) or "not currently supported by Kani" in c.get("description", "")]
-            real = [c for c in fails if c not in unwind and c not in unsupported]
+            # Kani's optional float checks ("NaN on addition" ..) flag NaN production, which is not a panic
+            nan = [c for c in fails if (c.get("description") or "").startswith("NaN on")]
+            real = [c for c in fails if c not in unwind and c not in unsupported and c not in nan]
+            if nan and not real and not unwind and not unsupported and not undet:
+                r.status = "success"
+                r.reason = "only NaN-production checks failed (not panics)"
+                continue
             if real and not unwind:
                 r.status = "failure"
                 for c in real:
